@@ -145,5 +145,126 @@ def plan_c10(tier, seed):
 
 FLOORS["C10"] = {"evaluations": 100_000, "distinct_nontrivial": 80}
 
+# ----------------------------------------------------------------------------------------------
+prop("C01", level="exploration",
+     title="Every accessor handed out stays inside its parent memory and is aligned",
+     technique="extent monitor over random derivation chains: the extent every accessor reports about itself (ptr_guard, len, reference address) is compared in 128-bit arithmetic with parent and root; every accessor is then used while PROT_NONE guard pages, canaries, mapping slack, ASan and Miri watch for accesses outside the root",
+     rule="cases = derivation chains (depth <= 6 quick / 16 thorough) from roots {arena buffer abutting a leading guard page, abutting a trailing guard page, centred at every address mod 16 with canaries; MmapRegion; GuestRegionMmap / GuestMemoryMmap get_slice}; steps subslice, get_slice, offset, split_at, as_volatile_slice, ArrayRef::from, get_ref<T>->to_slice, get_array_ref<T>->to_slice/ref_at->to_slice, get_atomic_ref<A>, aligned_as_ref/mut<T>, compute_end_offset with arguments from the boundary generator (0, len+-9, 2^31, 2^32, isize::MAX+-1, 2^63, usize::MAX-9.., pointer-overflowing); T in {u8,u16,u32,u64,u128,usize,[u8;3],[u16;5],[u8;0],Le32,Be64}; ByteValued::from_slice/from_mut_slice grid (len 0..23 x misalignment 0..7 x 8 types). distinct key = (operation, type, outcome, boundary class of offset, of count, depth bucket, root kind); non-trivial = request ends within +-9 of the parent end, or an overflow class, or depth >= 2",
+     assumptions=["accessor self-reports (ptr_guard().as_ptr(), len(), reference addresses) are the observation; accesses outside the root are observed by guard pages / canaries natively and by ASan / Miri in the thorough tier", "'fits => Ok' is counted, not judged (belongs to C04)"],
+     level_text="Runtime extent oracle over tens of thousands of random derivation chains plus guard-page / canary / sanitizer observation of real use; held-on-observed.",
+     level_note="Red-zone tools do not see intra-object overflows; the extent arithmetic does not depend on them. A SIGSEGV/SIGBUS of the monitor process is reported as a violation with the announced chain as witness.",
+     design_ref="DESIGN.md §7 C01")
+
+
+@plan("C01")
+def plan_c01(tier, seed):
+    if tier == "quick":
+        runs = shards("std-debug", "c01", 8, ["seed=%d" % seed, "cases=40000"], timeout=600, crash_is_violation=True)
+        runs += shards("miri", "c01", 8, ["seed=%d" % seed, "cases=240", "depth=5"], timeout=900)
+        return runs
+    runs = shards("std-debug", "c01", 16, ["seed=%d" % seed, "cases=1000000", "depth=16"], timeout=3400, crash_is_violation=True)
+    runs += shards("std-release", "c01", 8, ["seed=%d" % (seed + 5), "cases=400000", "depth=16"], timeout=3400, crash_is_violation=True)
+    runs += shards("asan", "c01", 8, ["seed=%d" % (seed + 9), "cases=100000", "depth=12"], timeout=3400)
+    runs += shards("miri", "c01", 16, ["seed=%d" % seed, "cases=5000", "depth=10"], timeout=3400)
+    return runs
+
+
+FLOORS["C01"] = {"chains_depth_ge2": 5000, "distinct_nontrivial": 3000}
+
+# ----------------------------------------------------------------------------------------------
+prop("C03", level="exploration",
+     title="Guest memory reads and writes behave like one flat sparse byte array",
+     technique="history monitor with a flat sparse byte-array model over the interval model: return values, error variants and PartialBuffer counts of every guest-level access are compared with the model, and every region, its mapping slack and its backing file are re-read through an independent path after every step; backends anonymous mmap, MAP_SHARED file, MockMemory (default trait methods, region ending at 2^64-1 plus region at 0), Xen-UNIX in the thorough tier; Miri/ASan passes",
+     rule="cases = histories of 20..200 mixed operations (write/read/write_slice/read_slice, write_obj/read_obj of 1..32-byte objects, atomic store/load, read_volatile_from/read_exact_volatile_from from slices and cursors of shorter/equal/longer length, write_volatile_to/write_all_volatile_to into a Vec, region-level access) on layouts of 1..5 regions (touching, 1-byte and large holes, at 0, next to / at the top of the address space) with start addresses at region edges +-2 and buffer lengths run-1, run, run+1, longer. distinct key = (operation, outcome class, number of regions crossed, position class of the start address, length-vs-run class, backend); all non-trivial",
+     assumptions=["flat byte-array model (models/world.rs) is the specification", "empty buffers are left to C18", "in-memory streams of the exact forms are at least `count` long (short/faulty streams are C14)"],
+     level_text="Model-based history monitor with full-memory frame comparison after every step, three backends; held-on-observed.",
+     level_note="Trusts the flat model and MockMemory's required methods; host pointers are read by the harness through raw volatile loads.",
+     design_ref="DESIGN.md §7 C03")
+
+
+@plan("C03")
+def plan_c03(tier, seed):
+    if tier == "quick":
+        runs = shards("std-debug", "c03", 8, ["seed=%d" % seed, "cases=6000"], timeout=600, crash_is_violation=True)
+        runs += shards("xen-debug", "c03", 2, ["seed=%d" % (seed + 3), "cases=800"], timeout=600, crash_is_violation=True)
+        runs += shards("miri", "c03", 8, ["seed=%d" % seed, "cases=40", "maxops=30"], timeout=900)
+        return runs
+    runs = shards("std-debug", "c03", 16, ["seed=%d" % seed, "cases=160000"], timeout=3400, crash_is_violation=True)
+    runs += shards("std-release", "c03", 8, ["seed=%d" % (seed + 1), "cases=80000"], timeout=3400, crash_is_violation=True)
+    runs += shards("xen-debug", "c03", 4, ["seed=%d" % (seed + 3), "cases=20000"], timeout=3400, crash_is_violation=True)
+    runs += shards("asan", "c03", 8, ["seed=%d" % (seed + 2), "cases=20000"], timeout=3400)
+    runs += shards("miri", "c03", 16, ["seed=%d" % seed, "cases=480", "maxops=40"], timeout=3400)
+    return runs
+
+
+FLOORS["C03"] = {"evaluations": 200_000, "distinct_nontrivial": 1000, "histories_with_region_at_top": 50}
+
+# ----------------------------------------------------------------------------------------------
+prop("C04", level="exploration",
+     title="Every accessor of a volatile container moves exactly the bytes it names",
+     technique="history monitor with a Vec<u8> model of one container: result, count and error of every byte/object/typed/array/copy/atomic accessor compared with the model; whole container, canaries, guard pages and mapping slack compared after every operation; cross-route re-reads; complete (length x src-alignment x dst-alignment) grid of the small-copy helper; Miri/ASan/memcheck passes",
+     rule="cases = histories of 50..300 operations on arena-backed slices (sizes 0..300, 4096; abutting guard pages or centred at every address mod 16) and MmapRegion containers, on the container or a derived sub-slice: write/read/write_slice/read_slice with 8 local-buffer alignments, write_obj/read_obj/get_ref store/load for 20 element types (1..16-byte integers, arrays, Le/Be wrappers), atomic store/load for 10 types, array refs (load/store/copy_to/copy_from/copy_to_volatile_slice/to_slice), element-wise copy_to/copy_from, slice-to-slice copies within (overlapping) and across containers, offsets inside/touching/crossing the end and huge. Grid (complete): lengths 0..24 x local alignment 0..7 x guest alignment 0..7 x {write, read, copy_from<u8>, copy_to<u8>} = 6400 cells. distinct key = (operation, element type, outcome, offset class, length class, alignment classes); all non-trivial",
+     exhaustive_note="25 x 8 x 8 x 4 grid of the byte-copy helper (both sides of the 8-byte threshold, every alignment class)",
+     assumptions=["Vec<u8> model in mon_c04.rs is the specification", "memmove semantics for overlapping slice-to-slice copies"],
+     level_text="Model-based history monitor with frame comparison after every operation plus a completely enumerated copy grid; held-on-observed.",
+     level_note="Trusts the byte model; a crash of the monitor (guard page hit) is a violation with the announced history as witness.",
+     design_ref="DESIGN.md §7 C04")
+
+
+@plan("C04")
+def plan_c04(tier, seed):
+    if tier == "quick":
+        runs = shards("std-debug", "c04", 8, ["seed=%d" % seed, "cases=8000"], timeout=600, crash_is_violation=True)
+        runs += shards("std-release", "c04", 2, ["seed=%d" % (seed + 1), "cases=4000"], timeout=600, crash_is_violation=True)
+        runs += shards("miri", "c04", 8, ["seed=%d" % seed, "cases=64", "maxops=60", "nogrid"], timeout=900)
+        return runs
+    runs = shards("std-debug", "c04", 16, ["seed=%d" % seed, "cases=240000"], timeout=3400, crash_is_violation=True)
+    runs += shards("std-release", "c04", 8, ["seed=%d" % (seed + 1), "cases=160000"], timeout=3400, crash_is_violation=True)
+    runs += shards("asan", "c04", 8, ["seed=%d" % (seed + 2), "cases=40000"], timeout=3400)
+    runs += shards("miri", "c04", 16, ["seed=%d" % seed, "cases=640", "maxops=80"], timeout=3400)
+    runs.append(Run("std-release", "c04", ["seed=%d" % (seed + 4), "cases=300"], timeout=3400, tool="memcheck"))
+    return runs
+
+
+FLOORS["C04"] = {"grid_cells": 6400, "evaluations": 300_000, "distinct_nontrivial": 5000}
+
+# ----------------------------------------------------------------------------------------------
+_C0516_RULE = ("cases = histories of 30..120 operations on GuestMemoryMmap<B> with 1..3 (mostly adjacent) regions, page sizes {1,2,3,7,8,16,64,100,4096,size-1,size,size+1,2*size,random}, bitmap flavours AtomicBitmap (RefSlice views), Option<AtomicBitmap> (Some/None) and an Arc-backed bitmap (ArcSlice views). Write routes: write, write_slice, write_obj, VolatileRef::store, VolatileArrayRef::{store, copy_from, ref_at.store}, copy_from<T>, atomic store, slice->slice and array->slice copies, read_volatile_from/read_exact_volatile_from from &[u8], Cursor, File, a failing descriptor and a reader that fails after a partial fill - at slice level (through accessors reached by random derivation chains of depth 0..6 with non-aligned bases, incl. get_slice / to_slice / ref_at views), region level and guest-memory level (cross-region). Non-writing routes: reads, loads, copy_to, write_volatile_to, queries, derivations, pointer guards, rejected requests. Bitmap reset/reset_addr_range/get_and_reset/reset_bit interleaved. Payloads are the complement of the current contents. distinct key = (route, level, derivation depth, page-size class, page-straddle class of the range, bitmap flavour); all non-trivial")
+
+prop("C05", level="exploration",
+     title="No tracked write leaves its pages clean (dirty tracking is sound)",
+     technique="diff-driven frame monitor: all bytes and all bitmap bits of all regions are snapshotted around every operation; every byte whose value changed must be reported dirty by the owning region's bitmap at its own offset and by the accessor's own bitmap view; an access may never clear a mark",
+     rule=_C0516_RULE,
+     assumptions=["raw routes (ptr_guard_mut, aligned_as_mut, get_atomic_ref used directly, get_host_address) are exempt by documentation and are not used for writing", "Xen build: Bitmap page size is fixed to the system page size there, covered by the xen-debug pass of the thorough tier at slice/region level only"],
+     level_text="Diff-driven runtime oracle independent of what each call claims to have written, over thousands of histories x page sizes x bitmap flavours x derivation chains; held-on-observed.",
+     level_note="A write whose payload equals the old contents is invisible to a diff; payloads are therefore generated as the bitwise complement of the current bytes.",
+     design_ref="DESIGN.md §7 C05")
+
+prop("C16", level="exploration",
+     title="Dirty marks are confined to what was written (tracking is precise)",
+     technique="diff-driven frame monitor (same harness as C05, separate verdict stream): every newly set bit of every region's bitmap must belong to a page overlapping the bytes that actually changed; non-writing operations and rejected requests may set nothing; a failed descriptor read may mark its whole target; no page index beyond a region is ever marked",
+     rule=_C0516_RULE,
+     assumptions=["the single documented exception (failed descriptor read marks its whole target) is allowed exactly for the target range", "payloads are complements, so 'bytes actually changed' == 'bytes written'"],
+     level_text="Diff-driven runtime oracle over the full bitmap of every region before/after every operation; together with C05 this pins the marked set exactly; held-on-observed.",
+     level_note="Shares the C05 harness; violations are attributed by signature prefix.",
+     design_ref="DESIGN.md §7 C16")
+
+
+def _plan_c0516(tier, seed):
+    if tier == "quick":
+        runs = shards("std-debug", "c05", 8, ["seed=%d" % seed, "cases=8000"], timeout=600)
+        runs += shards("miri", "c05", 8, ["seed=%d" % seed, "cases=32", "maxops=40"], timeout=900)
+        return runs
+    runs = shards("std-debug", "c05", 16, ["seed=%d" % seed, "cases=300000"], timeout=3400)
+    runs += shards("std-release", "c05", 8, ["seed=%d" % (seed + 1), "cases=160000"], timeout=3400)
+    runs += shards("miri", "c05", 16, ["seed=%d" % seed, "cases=320", "maxops=60"], timeout=3400)
+    return runs
+
+
+PLANS["C05"] = _plan_c0516
+PLANS["C16"] = _plan_c0516
+FLOORS["C05"] = {"ops_that_changed_bytes": 50_000, "distinct_nontrivial": 3000}
+FLOORS["C16"] = {"ops_that_changed_bytes": 50_000, "distinct_nontrivial": 3000}
+
 # properties that are (currently) not claimed, with the reason recorded in MANIFEST.json
 NOT_CLAIMED = {}
